@@ -52,6 +52,7 @@ class Interp:
         self.maxsteps = maxsteps
         self.depth = 0
         self.err = None      # current error inside a handler
+        self.ret_forvars = {}
 
     # a forall iterator *is* the table element (manual: "the iterator variable points to item value"): reads and writes go through
     def rd(self, env, name):
@@ -288,6 +289,9 @@ class Interp:
         elif k == "break": raise _Break()
         elif k == "continue": raise _Continue()
         elif k == "return":
+            if env is getattr(self, "env", None):
+                # a return executed inside for loops of the main program: the control variables keep the values they have right now
+                self.ret_forvars = {v: env.get(v) for v in env.get("\0forvars", [])}
             if s[1] is None: raise _Return(NOTHING)
             raise _Return(self.raw(s[1], env))
         elif k == "do":
